@@ -29,9 +29,9 @@ pub fn gamut_kind(p: &OpParameter) -> &'static str {
     }
 }
 
-const HOSTILE_VALUES: [&str; 64] = [
+const HOSTILE_VALUES: [&str; 68] = [
     "", "0", "-0", "1", "-1", "1e999", "-1e999", "nan", "NaN", "inf", "-inf", "infinity", "1e-320",
-    "999999999999999999999999999999", "0.1", "1:2:3", "1:2:3N", "1:2:3S", "12:30W", "12°", "1°",
+    "999999999999999999999999999999", "0.1", "1:2:3", "1:2:3N", "1:2:3:4", "1:30:36:0N", "-0:0:0:0:0", "1:2:3:4,5", "1:2:3S", "12:30W", "12°", "1°",
     "°", "é", "1é", "€", "𝐑", "$x", "$x(1)", "(1)", "$", "$(", "$()", "((", "))", "(", ")", "a,b",
     ",", ",,", "1,2,3", "1,2", "1,2,3,4,5", "true", "false", "TRUE", ":", "a:b", "a:b:c", "=",
     "==", "1,nan,3", "1.5", "-1.5", "90", "-90", "180", "360", "1e10", "0x10", "1_000", "+1", "1e",
